@@ -568,6 +568,41 @@ fn main() {
             }
         });
     }
+    // several revisions in one version: every version of <= 4 tokens over {1, 2, nb1, nb2, nb3, '.',
+    // '_'} against itself extended by one or two more tokens (the last 'nb' sets the revision,
+    // wherever the two candidates begin to differ)
+    {
+        const TK: [&str; 7] = ["1", "2", "nb1", "nb2", "nb3", ".", "_"];
+        let mut stems: Vec<String> = vec![];
+        let mut cur: Vec<String> = vec!["".to_string()];
+        for _ in 0..4 {
+            let mut next = vec![];
+            for c in &cur {
+                for tk in TK {
+                    next.push(format!("{}{}", c, tk));
+                }
+            }
+            stems.extend(next.iter().cloned());
+            cur = next;
+        }
+        let mut ext: Vec<String> = TK.iter().map(|x| x.to_string()).collect();
+        for a in TK {
+            for b in TK {
+                ext.push(format!("{}{}", a, b));
+            }
+        }
+        let star = Pattern::new("p-*").unwrap_or_else(|e| run.fault(&format!("p-*: {}", e)));
+        run.bound(format!("several revisions: {} versions of <= 4 tokens over {:?}, each against itself extended by {} one- and two-token tails, both argument orders", stems.len(), TK, ext.len()));
+        par_items(&run, "C06 several revisions", &stems, |_, x, t| {
+            let a = format!("p-1{}", x);
+            for e in &ext {
+                let b = format!("p-1{}{}", x, e);
+                t.states += 1;
+                t.transitions += 2;
+                check_pair(&run, t, "p-*", &star, &a, &b);
+            }
+        });
+    }
     // scale: long candidate lists (rotations of the pool, 8..64 names) reduced left-to-right,
     // right-to-left and as a balanced tree
     run.bound("scale: for each pattern, every rotation and its reversal of pool-derived lists of 8, 16, 27 and 64 candidates, reduced left-to-right, right-to-left and as a balanced tree");
